@@ -15,7 +15,9 @@ type BID struct {
 	PartHash  []byte
 }
 
-func (b *BID) IsZero() bool { return b == nil || (len(b.Hash) == 0 && b.PartTotal == 0 && len(b.PartHash) == 0) }
+func (b *BID) IsZero() bool {
+	return b == nil || (len(b.Hash) == 0 && b.PartTotal == 0 && len(b.PartHash) == 0)
+}
 
 func pbVarint(b []byte, v uint64) []byte {
 	for v >= 0x80 {
